@@ -16,6 +16,13 @@
 // such template; the output must equal the value a 150-line exact evaluator assigns to the tree
 // (so minimal form = full form = model, in every position). Short circuit is observed through a
 // harness function that logs which leaves were evaluated.
+//
+// Every tree is evaluated more than once with other values of its variables (worlds.go): its registered
+// template is rendered again on the same engine with the contexts of up to two other "worlds", and the tree
+// stands inside `{% for w in ws %}` with its variables spelled w.a, w.o.n, w.xs[1]; each evaluation must
+// print the reference value for its own world. A family of one-operator trees puts a signed operand
+// (unary - / + / not on a variable, attribute read, item access, parenthesised sum) on the left, on the
+// right and on both sides of every binary typing next to literals and constant sub-expressions.
 package main
 
 import (
@@ -130,20 +137,23 @@ func build(pos *position, in *inst, st style, want string) rendering {
 	}
 	opt := [3]string{" ", "", "  "}[st.sp]
 	man := [3]string{" ", " ", "  "}[st.sp]
-	s := pos.tmpl
-	if s[0] == 'M' {
+	s, pre := pos.tmpl, ""
+	switch s[0] {
+	case 'M':
+		pre, s = macroV, s[1:]
 		if typ == 'b' {
-			s = macroB + s[1:]
-		} else {
-			s = macroV + s[1:]
+			pre = macroB
 		}
+	case 'L':
+		pre, s = longComment, s[1:]
+	case 'C':
+		pre, s = macroC, s[1:]
 	}
-	if s[0] == 'L' {
-		s = longComment + s[1:]
+	if st.loop {
+		// the whole position once per world: `in` is spelled with the variables as attributes of w
+		s = "{% for w in ws %}" + s + ";{% endfor %}"
 	}
-	if s[0] == 'C' {
-		s = macroC + s[1:]
-	}
+	s = pre + s
 	s = strings.NewReplacer("\x00", e, "\x01", cond, "\x02", q, "\x03", opt, "\x04", man, "\x05", [3]string{"", "", "  "}[st.sp], "\x06", want).Replace(s)
 	if st.sp == spTight {
 		// a delimiter must not fuse with the expression into another lexeme
@@ -165,6 +175,45 @@ func build(pos *position, in *inst, st style, want string) rendering {
 		r.sub = map[string]string{pos.sub: body}
 	}
 	return r
+}
+
+// expectedIn: what the position prints for the value v of one evaluation. first = the value of the first
+// evaluation (the if-spelling route has its spelling in the template); w = the world of the evaluation;
+// loop = the evaluation is one pass of `{% for w in ws %}` (the wrapper's own variables are then world 0's).
+func expectedIn(pos *position, v, first val, w world, loop bool) (string, bool) {
+	switch pos.name {
+	case "if-spelling":
+		// `(e) ~ '' == '<spelling of the first evaluation>'`: T when the spellings are the same. When they
+		// differ it is F if both are integers in canonical spelling within +-2^53 (numeric comparison) or
+		// one of them cannot be read as a number at all (it has a letter); two different digit strings
+		// beyond 2^53, or '2-4' against '23', are not determined by the statement: no value, not rendered
+		x, y := v.String(), first.String()
+		if x == y {
+			return "T", true
+		}
+		_, xn := numeric(sv(x))
+		_, yn := numeric(sv(y))
+		if (xn && yn) || hasLetter(x) || hasLetter(y) {
+			return "F", true
+		}
+		return "", false
+	case "elseif":
+		if w.f && !loop {
+			return "x", true // `{% if f %}x{% elseif … %}`: the wrapper's first condition holds in this world
+		}
+	}
+	return expected(pos, v)
+}
+
+// hasLetter: the text contains a letter that no spelling of a number contains
+func hasLetter(s string) bool {
+	for i := 0; i < len(s); i++ {
+		c := s[i] | 0x20
+		if c >= 'a' && c <= 'z' && c != 'e' && c != 'x' {
+			return true
+		}
+	}
+	return false
 }
 
 func expected(pos *position, v val) (string, bool) {
@@ -211,10 +260,20 @@ func goValue(v val) interface{} {
 	return out
 }
 
-func render(r rendering, leaves []leaf) (res string, trace []int) {
+// render registers the templates on a fresh engine and renders "main" once per context, in order, on that
+// one engine (the second and later renders evaluate the cached nodes again). leaves[i] are the values the
+// logging function k(j) hands out during render i.
+func render(r rendering, leaves [][]leaf, ctxs []map[string]interface{}) (res []string, traces [][]int) {
+	res = make([]string, len(ctxs))
+	traces = make([][]int, len(ctxs))
+	all := func(s string) {
+		for i := range res {
+			res[i] = s
+		}
+	}
 	defer func() {
 		if p := recover(); p != nil {
-			res = fmt.Sprintf("PANIC: %v", p)
+			all(fmt.Sprintf("PANIC: %v", p))
 		}
 	}()
 	e := twig.New()
@@ -246,6 +305,7 @@ func render(r rendering, leaves []leaf) (res string, trace []int) {
 		return args[i+1], nil
 	})
 	seen := map[int]bool{}
+	var cur []leaf
 	e.AddFunction("k", func(args ...interface{}) (interface{}, error) {
 		if len(args) != 1 {
 			return nil, fmt.Errorf("k: %d arguments", len(args))
@@ -257,29 +317,96 @@ func render(r rendering, leaves []leaf) (res string, trace []int) {
 		case float64:
 			o = int(x)
 		}
-		if o < 0 || o >= len(leaves) {
+		if o < 0 || o >= len(cur) {
 			return nil, fmt.Errorf("k: bad ordinal %v", args[0])
 		}
 		seen[o] = true
-		return goValue(leaves[o].v), nil
+		return goValue(cur[o].v), nil
 	})
 	for n, s := range r.sub {
 		if err := e.RegisterString(n, s); err != nil {
-			return "ERR(aux): " + err.Error(), nil
+			all("ERR(aux): " + err.Error())
+			return
 		}
 	}
 	if err := e.RegisterString("main", r.src); err != nil {
-		return "ERR(parse): " + err.Error(), nil
+		all("ERR(parse): " + err.Error())
+		return
 	}
-	out, err := e.Render("main", context())
-	if err != nil {
-		return "ERR(render): " + err.Error(), nil
+	for i, ctx := range ctxs {
+		cur = nil
+		if i < len(leaves) {
+			cur = leaves[i]
+		}
+		for o := range seen {
+			delete(seen, o)
+		}
+		func() {
+			defer func() {
+				if p := recover(); p != nil {
+					res[i] = fmt.Sprintf("PANIC: %v", p)
+				}
+			}()
+			out, err := e.Render("main", ctx)
+			if err != nil {
+				res[i] = "ERR(render): " + err.Error()
+				return
+			}
+			res[i] = out
+			for o := range seen {
+				traces[i] = append(traces[i], o)
+			}
+			sort.Ints(traces[i])
+		}()
 	}
-	for o := range seen {
-		trace = append(trace, o)
+	return
+}
+
+// renderEvals: the template of the tree in (position, style), registered once and rendered once per
+// evaluation; oks[i] is false (and nothing is rendered) where the position has no value for evaluation i
+// (`seq[e]` with e outside 0..9).
+func renderEvals(pos *position, st style, evs []evaluation) (r rendering, outs, wants []string, oks []bool) {
+	r = build(pos, evs[0].in, st, evs[0].v.String())
+	outs, wants, oks = make([]string, len(evs)), make([]string, len(evs)), make([]bool, len(evs))
+	var leaves [][]leaf
+	var ctxs []map[string]interface{}
+	var idx []int
+	for i, ev := range evs {
+		wants[i], oks[i] = expectedIn(pos, ev.v, evs[0].v, worlds[ev.w], false)
+		if oks[i] {
+			leaves = append(leaves, ev.in.leaves)
+			ctxs = append(ctxs, contextOf(worlds[ev.w]))
+			idx = append(idx, i)
+		}
 	}
-	sort.Ints(trace)
-	return out, trace
+	res, _ := render(r, leaves, ctxs)
+	for j, i := range idx {
+		outs[i] = res[j]
+	}
+	return
+}
+
+// renderLoop: the position inside `{% for w in ws %}`, ws = the contexts of the evaluations the position
+// has a value for (n of them; nothing is rendered when n < 2); want = the values, each followed by `;`.
+func renderLoop(pos *position, st style, evs []evaluation) (r rendering, out, want string, n int) {
+	st.loop = true
+	var ws []interface{}
+	for _, ev := range evs {
+		x, ok := expectedIn(pos, ev.v, evs[0].v, worlds[ev.w], true)
+		if ok {
+			ws = append(ws, contextOf(worlds[ev.w]))
+			want += x + ";"
+			n++
+		}
+	}
+	if n < 2 {
+		return
+	}
+	r = build(pos, evs[0].in.inWorld(evs[0].w, true), st, evs[0].v.String())
+	ctx := contextOf(worlds[0])
+	ctx["ws"] = ws
+	res, _ := render(r, nil, []map[string]interface{}{ctx})
+	return r, res[0], want, n
 }
 
 // ---- the enumeration
@@ -547,6 +674,45 @@ type mismatch struct {
 	Aux      map[string]string `json:"aux_templates,omitempty"`
 	Got      string            `json:"got"`
 	Want     string            `json:"want"`
+	// Evaluation: which evaluation of the expression differs, when it is not the first render in world W0
+	Evaluation string `json:"evaluation,omitempty"`
+}
+
+// again: how many further worlds every tree is evaluated in after its first (worlds.go)
+const again = 2
+
+// loopWide: the class runs the loop form in every non-route position and three (thorough: twelve) styles;
+// the other classes in print / print-long / if / set / for-seq and the minimal form only
+func (c class) loopWide() bool { return c.k+c.u <= 2 || c.cross }
+
+func loopStyles(c class, cd candidate) []style {
+	switch {
+	case cd.reduced:
+		return styles(c, 0, true, cd.tight)
+	case c.cross && c.k+c.u <= 2:
+		var out []style
+		for _, par := range []int{parMin, parFull, parMax, parRoot} {
+			for _, sp := range []int{spNormal, spTight, spWide} {
+				out = append(out, style{par: par, sp: sp})
+			}
+		}
+		return out
+	case c.loopWide():
+		return []style{{par: parMin, sp: spNormal}, {par: parMin, sp: spTight}, {par: parFull, sp: spWide}}
+	}
+	return []style{{par: parMin, sp: spNormal}}
+}
+
+func againNote(i, n int, ev evaluation) string {
+	return fmt.Sprintf("render %d of %d of the same registered template on one engine, with %s", i+1, n, worlds[ev.w].describe())
+}
+
+func loopNote(evs []evaluation) string {
+	var d []string
+	for _, ev := range evs {
+		d = append(d, worlds[ev.w].describe())
+	}
+	return "one render; ws = the contexts of " + strings.Join(d, "; ") + " (passes for which the position has no value are left out)"
 }
 
 func runCase(sk *node, key string, c class) *vlib.Outcome {
@@ -577,6 +743,20 @@ func runCase(sk *node, key string, c class) *vlib.Outcome {
 			}
 		}
 		classes = append(classes, in.root.op+"→"+valueClass(cd.v))
+		// the further evaluations of the same nodes: world 0 first, then up to `again` other worlds
+		evs := chooseWorlds(in, []int{0}, corpusOrder, 1+again)
+		if len(evs) >= 2 {
+			o.Counters["trees_evaluated_again_with_other_values"]++
+			if valueChanges(evs) {
+				o.Counters["trees_whose_value_changes_between_evaluations"]++
+			}
+		}
+		// renders on one engine: all of them in the classes up to two operators, the first two beyond
+		// (the loop form and the traced renders take all three)
+		revs := evs
+		if c.k+c.u > 2 && len(revs) > 2 {
+			revs = revs[:2]
+		}
 		_, nopt := in.print(style{par: parMin})
 		kfApplies := in.hasUnaryOnIndex()
 		negZeroOut, negZeroApplies := in.negativeZeroQuirk()
@@ -601,9 +781,25 @@ func runCase(sk *node, key string, c class) *vlib.Outcome {
 				if !ok {
 					continue
 				}
-				r := build(pos, in, st, cd.v.String())
-				got, _ := render(r, in.leaves)
+				revs := revs
+				if c.k+c.u > 2 && (st.sp == spWide || st.par == parRoot || st.par == parMask) {
+					revs = revs[:1] // beyond two operators the wide, whole-expression and subset forms are rendered once
+				}
+				r, outs, wants, oks := renderEvals(pos, st, revs)
+				got := outs[0]
 				o.Counters["renders"]++
+				for i := 1; i < len(revs); i++ {
+					if !oks[i] {
+						continue
+					}
+					o.Counters["renders_again_on_the_same_engine"]++
+					if outs[i] != wants[i] {
+						unexplained++
+						if len(bad) < 40 {
+							bad = append(bad, mismatch{in.canon(), evs[i].v.String(), st.String(), pos.name, show(r.src), r.sub, outs[i], wants[i], againNote(i, len(revs), revs[i])})
+						}
+					}
+				}
 				if cd.commas > 0 {
 					o.Counters["renders_with_comma_leaves"]++
 				}
@@ -623,8 +819,8 @@ func runCase(sk *node, key string, c class) *vlib.Outcome {
 				if kfApplies && st.par != parMax {
 					qs := st
 					qs.quirk = true
-					qgot, _ := render(build(pos, in, qs, cd.v.String()), in.leaves)
-					explained = qgot == got
+					qres, _ := render(build(pos, in, qs, cd.v.String()), [][]leaf{in.leaves}, []map[string]interface{}{context()})
+					explained = qres[0] == got
 					if explained {
 						kf1++
 					}
@@ -637,7 +833,31 @@ func runCase(sk *node, key string, c class) *vlib.Outcome {
 					unexplained++
 				}
 				if len(bad) < 40 && (!explained || unexplained == 0) {
-					bad = append(bad, mismatch{in.canon(), cd.v.String(), st.String(), pos.name, show(r.src), r.sub, got, want})
+					bad = append(bad, mismatch{in.canon(), cd.v.String(), st.String(), pos.name, show(r.src), r.sub, got, want, ""})
+				}
+			}
+		}
+		// the same tree inside a loop over the worlds
+		if len(evs) >= 2 {
+			for _, st := range loopStyles(c, cd) {
+				for pi := range positions {
+					pos := &positions[pi]
+					if pos.route || !strings.ContainsRune(pos.types, posType(in.root.typ)) || (!c.loopWide() && !fewPositions[pos.name]) {
+						continue
+					}
+					r, out, want, n := renderLoop(pos, st, evs)
+					if n < 2 {
+						continue
+					}
+					o.Counters["loop_renders"]++
+					o.Counters["evaluations_inside_loops"] += int64(n)
+					if out != want {
+						unexplained++
+						if len(bad) < 40 {
+							st.loop = true
+							bad = append(bad, mismatch{in.canon(), want, st.String(), pos.name, show(r.src), r.sub, out, want, loopNote(evs)})
+						}
+					}
 				}
 			}
 		}
@@ -650,9 +870,23 @@ func runCase(sk *node, key string, c class) *vlib.Outcome {
 					tp = forSeq
 				}
 				r := build(tp, in, st, "")
-				got, tr := render(r, in.leaves)
+				var tl [][]leaf
+				var tc []map[string]interface{}
+				for _, ev := range evs {
+					tl, tc = append(tl, ev.in.leaves), append(tc, contextOf(worlds[ev.w]))
+				}
+				res, trs := render(r, tl, tc)
+				got, tr := res[0], trs[0]
 				o.Counters["traced_renders"]++
 				o.Counters["renders"]++
+				for i := 1; i < len(evs); i++ {
+					o.Counters["traced_renders_again_on_the_same_engine"]++
+					if res[i] != evs[i].v.String() || fmt.Sprint(trs[i]) != fmt.Sprint(evs[i].trace) {
+						unexplained++
+						bad = append(bad, mismatch{in.canon(), evs[i].v.String(), st.String(), "print (leaves are calls k(i) that log i)", show(r.src), nil,
+							fmt.Sprintf("%s, evaluated leaves %v", res[i], trs[i]), fmt.Sprintf("%s, evaluated leaves %v", evs[i].v.String(), evs[i].trace), againNote(i, len(evs), evs[i])})
+					}
+				}
 				if got != cd.v.String() || fmt.Sprint(tr) != fmt.Sprint(cd.trace) {
 					if negZeroApplies && got == negZeroOut && fmt.Sprint(tr) == fmt.Sprint(cd.trace) {
 						kf2++ // KF-C08-2 also shows when the leaves are function calls
@@ -660,7 +894,7 @@ func runCase(sk *node, key string, c class) *vlib.Outcome {
 						unexplained++
 					}
 					bad = append(bad, mismatch{in.canon(), cd.v.String(), st.String(), "print (leaves are calls k(i) that log i)", show(r.src), nil,
-						fmt.Sprintf("%s, evaluated leaves %v", got, tr), fmt.Sprintf("%s, evaluated leaves %v", cd.v.String(), cd.trace)})
+						fmt.Sprintf("%s, evaluated leaves %v", got, tr), fmt.Sprintf("%s, evaluated leaves %v", cd.v.String(), cd.trace), ""})
 				}
 			}
 		}
@@ -670,7 +904,19 @@ func runCase(sk *node, key string, c class) *vlib.Outcome {
 	if len(bad) == 0 {
 		return o
 	}
-	// keep the unexplained ones first
+	report(o, bad)
+	if unexplained == 0 {
+		// vlib accepts one id per case; name the finding that explains most of the differing renders
+		o.Known = "KF-C08-1"
+		if kf2 > kf1 {
+			o.Known = "KF-C08-2"
+		}
+	}
+	return o
+}
+
+// report: the violation message and the replay detail for the differing renders of a case
+func report(o *vlib.Outcome, bad []mismatch) {
 	b := bad[0]
 	perPos := map[string]int{}
 	for _, m := range bad {
@@ -684,16 +930,129 @@ func runCase(sk *node, key string, c class) *vlib.Outcome {
 	if len(pp) > 12 {
 		pp = append(pp[:12], "…")
 	}
-	o.Violation = fmt.Sprintf("expression %s has value %q, but template %q%s renders %q [%s, %s]; %d differing renders of this tree: %s",
-		b.Expr, b.Want, b.Template, auxString(b.Aux), b.Got, b.Position, b.Style, len(bad), strings.Join(pp, ", "))
+	ev := ""
+	if b.Evaluation != "" {
+		ev = " (" + b.Evaluation + ")"
+	}
+	o.Violation = fmt.Sprintf("expression %s has value %q, template %q%s must render %q but renders %q [%s, %s]%s; %d differing renders of this tree: %s",
+		b.Expr, b.Value, b.Template, auxString(b.Aux), b.Want, b.Got, b.Position, b.Style, ev, len(bad), strings.Join(pp, ", "))
 	d, _ := json.Marshal(bad)
 	o.Detail = json.RawMessage(d)
-	if unexplained == 0 {
-		// vlib accepts one id per case; name the finding that explains most of the differing renders
-		o.Known = "KF-C08-1"
-		if kf2 > kf1 {
-			o.Known = "KF-C08-2"
+}
+
+// ---- the signed-operand family: one case = one (binary typing, side, signed form); see worlds.go
+
+func signedStyles(thorough bool) []style {
+	if thorough {
+		var out []style
+		for _, par := range []int{parMin, parFull, parMax, parRoot} {
+			for _, sp := range []int{spNormal, spTight, spWide} {
+				out = append(out, style{par: par, sp: sp})
+			}
 		}
+		return out
+	}
+	return []style{{par: parMin, sp: spNormal}, {par: parMin, sp: spTight}, {par: parFull, sp: spWide}}
+}
+
+func runSigned(sc signedCase, thorough bool) *vlib.Outcome {
+	o := &vlib.Outcome{Counters: map[string]int64{}}
+	var bad []mismatch
+	add := func(m mismatch) {
+		if len(bad) < 40 {
+			bad = append(bad, m)
+		}
+	}
+	o.Class = "signed: no tree with two defined evaluations"
+	for _, x := range sc.trees {
+		in := x.inst()
+		o.Counters["signed_trees"]++
+		evs := chooseWorlds(in, nil, signedOrder, 1+again)
+		if len(evs) < 2 {
+			o.Counters["signed_trees_with_fewer_than_two_defined_evaluations"]++
+			continue
+		}
+		o.Counters["trees"]++
+		o.Counters["trees_evaluated_again_with_other_values"]++
+		if valueChanges(evs) {
+			o.Nontrivial = true
+			o.Counters["trees_whose_value_changes_between_evaluations"]++
+			o.Counters["signed_trees_whose_value_changes_between_evaluations"]++
+			o.Class = "signed " + in.root.op + ": the value changes between evaluations"
+		} else if !o.Nontrivial {
+			o.Class = "signed " + in.root.op + ": the same value in every defined world"
+		}
+		base := evs[0].in
+		for _, st := range signedStyles(thorough) {
+			src, _ := base.print(st)
+			pn, err := parseWith(src, stated, base.leaves)
+			o.Counters["printer_roundtrips"]++
+			if err != nil || parsedCanon(pn) != base.canon() {
+				o.Violation = fmt.Sprintf("HARNESS SELF-TEST (not a twig defect): %q printed as %q [%v] does not read back as itself (%v)", base.canon(), src, st, err)
+				return o
+			}
+			for pi := range positions {
+				pos := &positions[pi]
+				if !strings.ContainsRune(pos.types, posType(in.root.typ)) {
+					continue
+				}
+				r, outs, wants, oks := renderEvals(pos, st, evs)
+				first := true
+				for i := range evs {
+					if !oks[i] {
+						continue
+					}
+					if first {
+						o.Counters["renders"]++
+						o.Counters["signed_renders"]++
+						first = false
+					} else {
+						o.Counters["renders_again_on_the_same_engine"]++
+					}
+					if outs[i] != wants[i] {
+						add(mismatch{base.canon(), evs[i].v.String(), st.String(), pos.name, show(r.src), r.sub, outs[i], wants[i], againNote(i, len(evs), evs[i])})
+					}
+				}
+				if pos.route {
+					continue
+				}
+				lr, out, want, n := renderLoop(pos, st, evs)
+				if n < 2 {
+					continue
+				}
+				o.Counters["loop_renders"]++
+				o.Counters["evaluations_inside_loops"] += int64(n)
+				if out != want {
+					ls := st
+					ls.loop = true
+					add(mismatch{base.canon(), want, ls.String(), pos.name, show(lr.src), lr.sub, out, want, loopNote(evs)})
+				}
+			}
+		}
+		if in.hasShortCircuit() {
+			for _, par := range []int{parMin, parFull} {
+				st := style{par: par, sp: spNormal, traced: true}
+				r := build(&positions[0], base, st, "")
+				var tl [][]leaf
+				var tc []map[string]interface{}
+				for _, ev := range evs {
+					tl, tc = append(tl, ev.in.leaves), append(tc, contextOf(worlds[ev.w]))
+				}
+				res, trs := render(r, tl, tc)
+				o.Counters["traced_renders"]++
+				o.Counters["renders"]++
+				o.Counters["traced_renders_again_on_the_same_engine"] += int64(len(evs) - 1)
+				for i := range evs {
+					if res[i] != evs[i].v.String() || fmt.Sprint(trs[i]) != fmt.Sprint(evs[i].trace) {
+						add(mismatch{base.canon(), evs[i].v.String(), st.String(), "print (leaves are calls k(i) that log i)", show(r.src), nil,
+							fmt.Sprintf("%s, evaluated leaves %v", res[i], trs[i]), fmt.Sprintf("%s, evaluated leaves %v", evs[i].v.String(), evs[i].trace), againNote(i, len(evs), evs[i])})
+					}
+				}
+			}
+		}
+	}
+	if len(bad) > 0 {
+		report(o, bad)
 	}
 	return o
 }
@@ -716,8 +1075,12 @@ func auxString(a map[string]string) string {
 }
 
 func run(t *vlib.T) {
+	only := os.Getenv("C08_CLASSES") // development aid: run only the named classes (k2u2,k4u0,…); never set by run.sh
 	for _, c := range classes(t.Thorough()) {
 		c := c
+		if only != "" && !strings.Contains(","+only+",", ","+c.String()+",") {
+			continue
+		}
 		for _, typ := range rootTypes {
 			genInto(c.k, c.u, typ, c.mode(), func(sk *node) {
 				if t.Stopped() {
@@ -729,6 +1092,20 @@ func run(t *vlib.T) {
 				}
 				t.Case(key, func() *vlib.Outcome { return runCase(sk, key, c) })
 			})
+		}
+		if c.k == 1 && c.u == 1 {
+			// the signed-operand family: trees of one binary operator with one or two signed operands,
+			// after the classes up to two operators
+			for _, sc := range signedCases() {
+				sc := sc
+				if t.Stopped() {
+					break
+				}
+				if !t.Owns(sc.key) {
+					continue
+				}
+				t.Case(sc.key, func() *vlib.Outcome { return runSigned(sc, t.Thorough()) })
+			}
 		}
 	}
 }
@@ -743,6 +1120,34 @@ func stats() {
 			}
 			fmt.Printf("  %-10s skeletons=%d rots=%d few=%v\n", c, n, c.rots, c.few)
 		}
+		sc := signedCases()
+		trees, two, chg, vacuous := 0, 0, 0, 0
+		for _, c := range sc {
+			any := false
+			for _, x := range c.trees {
+				trees++
+				evs := chooseWorlds(x.inst(), nil, signedOrder, 1+again)
+				if len(evs) >= 2 {
+					two++
+					if valueChanges(evs) {
+						chg++
+						any = true
+					}
+				}
+			}
+			if !any {
+				vacuous++
+				fmt.Println("    no tree with a changing value:", c.key)
+			}
+		}
+		typings, sides := map[string]bool{}, map[string]int{}
+		for _, c := range sc {
+			f := strings.SplitN(c.key, ":", 4)
+			typings[f[1]] = true
+			sides[f[2]]++
+		}
+		fmt.Printf("  signed family: typings=%d cases per side=%v\n", len(typings), sides)
+		fmt.Printf("  signed family: cases=%d trees=%d with>=2 evaluations=%d changing=%d cases without a changing tree=%d\n", len(sc), trees, two, chg, vacuous)
 	}
 }
 
@@ -766,6 +1171,11 @@ func main() {
 			"syntactic position (print, if, elseif, set, for, include-with sole / first / second entry, filter / function / macro argument, array element, hash value, index) " +
 			"and, for integer and string values, through every stringification route (e ~ '', '' ~ e, e|trim, (e ~ '')|length, [0, e]|join, (e) ~ '' == 'value', and q ~ '' after set / hash element / for / include variable / id(e) / default(e) / macro parameter: " +
 			"all trees up to two operators, beyond that the trees in which an integer of magnitude >= 10^14 occurs); " +
+			"every tree is evaluated again with other values of its variables — the registered template rendered a second and third time (beyond two operators: a second time, and not the wide, whole-expression and subset forms) on the same engine with the contexts of other worlds " +
+			"(W1..W7: other signs, zero, other truth values, strings, list lengths and large integers; only worlds in which every subexpression is defined, those that change the value first), and the tree inside " +
+			"{% for w in ws %} over the same worlds with its variables spelled w.a, w.o.n, w.xs[1] (up to two operators: every non-route position, three styles; beyond: print / print-long / if / set / for-seq, minimal form) — each evaluation must print the value for its own world; " +
+			"plus the signed-operand family: for every binary typing with an operand a unary operator applies to, unary - / + on a, o.n, xs[1], (a + b), (o.n + 2) (not on t, o.f, bs[0], (t and f); - / + on big, o.g, gs[1], c, o.c, ms[1] and sums) as left operand, as right operand " +
+			"and on both sides, the other operand running over literals and constant sub-expressions (2, 12, 7, (1 + 2), 2 * 3, -5, true, (2 < 12), 'n=', ('a' ~ 'b'), '10', [4, 2, 1], ...), in three worlds chosen from W0..W7, every position and route, three styles (thorough: twelve), re-rendered and in the loop; " +
 			"one case = one tree skeleton; non-trivial = at least two operators and at least one wrong operator table (levels swapped or merged, right grouping, " +
 			"conditional / unary / filter attaching to the wrong operand) gives the minimal form a different value",
 		Assumptions: []string{
@@ -774,7 +1184,8 @@ func main() {
 			"matches is used with /…/-delimited patterns whose meaning is the same in every regular-expression dialect (^a, b$)",
 			"the comma-containing leaves have the obvious values: max / min of integers, pick(i, x0, x1, ...) = x_i (registered by the harness), [x0, x1][i] = x_i, {'k': x, 'j': y}['k'] = x, null|default(x) = x; their value is computed from their structure and asserted equal to the plain leaf they stand in for",
 			"x|trim and x ~ '' of an integer are its canonical decimal spelling, [0, x]|join(',') is '0,' followed by it, |length of a string counts its characters (the obvious meanings; the statement's exact integers within +-2^53 have one decimal spelling)",
-			"trees larger than the tier's bound, and leaf assignments other than the rotations of the fixed pools, are not explored",
+			"trees larger than the tier's bound, and leaf assignments other than the rotations of the fixed pools in the eight worlds, are not explored",
+			"unary plus on an integer is the integer itself; a variable spelled w.a inside {% for w in ws %} has the value of key a of the current element of ws",
 		},
 		QuickDeadline:    150,
 		ThoroughDeadline: 840,
@@ -815,6 +1226,8 @@ func main() {
 				}
 				b = append(b, s)
 			}
+			b = append(b, fmt.Sprintf("signed-operand family: %d cases (binary typing x left / right / both x signed form), all positions and routes, %d styles, up to %d evaluations per engine and per loop", len(signedCases()), len(signedStyles(tier == "thorough")), 1+again))
+			b = append(b, fmt.Sprintf("re-evaluation: %d worlds; every tree rendered again on the same engine (up to %d further worlds up to two operators, one beyond) and inside a for loop over up to %d worlds", len(worlds), again, 1+again))
 			cov["bounds"] = b
 			cov["perturbed_tables"] = len(tables)
 		},
